@@ -276,6 +276,12 @@ func pairBegin() *ePair {
 	p.baseFds = listFds()
 	pairSeq++
 	p.name = fmt.Sprintf("verif_%d_%d", os.Getpid(), pairSeq)
+	if m, _ := filepath.Glob("/dev/shm/" + p.name + "*"); len(m) > 0 {
+		// files of a killed earlier run whose process id was reused must not be taken for this execution's
+		for _, f := range m {
+			os.Remove(f)
+		}
+	}
 	timerPool.Reset()
 	bufferSlicePool.Reset()
 	defaultDispatcher = p.router
